@@ -8,7 +8,7 @@ claim("C03","muxsim","exploration",
  "Black-box credit accountant over the wire monitor's history (independent codec): outstanding Push <= advertised window at every Push, one non-empty write = one Push, acknowledgements never ahead of consumption, no Reset of a live established flow; sampled over schedules, option pairs and racing-ack workloads.",
  NOTE_E1, T_DST, "DESIGN.md §6 C03")
 claim("C04","muxsim","exploration",
- "Liveness decided at exact quiescence of the simulated system (no step bound): all 36x36 (rwnd, threshold) option pairs enumerated by run index with fresh workloads/schedules, plus a starved-stream family; sampling over schedules.",
+ "Liveness decided at exact quiescence of the simulated system (no step bound): all 36x36 (rwnd, threshold) option pairs enumerated by run index with fresh workloads/schedules, plus a starved-stream family, unread datagrams, concurrent acceptors; and, in every run without faults, every byte accepted by a write must have become readable when the reader reached end-of-stream (a stream reset under a reader that keeps reading loses data without stalling anybody); sampling over schedules.",
  NOTE_E1, T_DST + "; liveness = pending-operation ledger at exact quiescence", "DESIGN.md §6 C04")
 claim("C05","muxsim","exploration",
  "Close/EOF histories against a sequential model: every end-of-stream needs an earlier terminating event of the peer, completeness after clean shutdown, BrokenPipe after shutdown / consumed Reset, no Push after Finish on the wire.",
@@ -35,7 +35,7 @@ claim("C13","muxsim","fault_enumeration",
  "The real bridge future is driven against a scripted local byte stream (every call's outcome decided by the plan: chunking, Pending with/without wake, EOF, error on read/write/flush/shutdown, short writes) and a scripted raw peer (data, Finish, Reset, credit starvation); prefix/equality of relayed bytes, credit per frame, half-close propagation, completion with true byte counts, and 'a failed operation completes the bridge by quiescence'.",
  NOTE_E1, T_DST + "; scripted I/O fault injection", "DESIGN.md §6 C13")
 claim("C16","muxsim","exploration",
- "Keepalive under the paused virtual clock through the TimestampProvider seam: exact ping schedule, dead-peer detection within [T, T+I] of the last pong (event order) followed by resolution of every pending call, no timeout for peers answering within T (known finding: pong gaps above T), disabled values.",
+ "Keepalive under the paused virtual clock through the TimestampProvider seam: exact ping schedule, dead-peer detection within [T, T+I] of the last pong (event order) followed by resolution of every pending call, no timeout for peers answering within T (known finding: pong gaps above T), disabled values; second family: a Sink kept busy by a datagram burst for several timeouts on a slow link - a due Ping waits only for what the Sink has already taken, never for the queue.",
  "tokio's paused clock is the only clock; a dead peer is a transport that returns nothing. One listed known finding (see known_findings.txt).", T_DST + "; discrete-event virtual time", "DESIGN.md §6 C16")
 claim("C18","muxsim","fault_enumeration",
  "SOCKS readers/writers polled against a scripted byte stream: reference-grammar requests under seeded chunkings with trailing bytes, cut at every byte offset x {EOF, error, left open} (sweep family), reply writers under partial/failed writes, UDP relay header build/parse against an independent RFC 1928 parser.",
